@@ -33,7 +33,7 @@ RULE = (
     "independently with posixpath against the caller, leaves the root (an escape attempt) or "
     "contains a dot segment / backslash / doubled slash and resolves inside."
 )
-RULE += ' added since: absolute URIs that name a path outside every root (with and without the root as textual prefix), and an explicit assertion that every escaping URI is rejected (escape-not-rejected) both directly and through tags.'
+RULE += ' added since: absolute URIs that name a path outside every root (with and without the root as textual prefix), and an explicit assertion that every escaping URI is rejected (escape-not-rejected) both directly and through tags. lookups rooted outside loading the same URIs in the same process, before and after ours.'
 ASSUMPTIONS = [
     "symlinks inside a root are not part of the statement",
     "the empty URI is not exercised through tags (adjust_uri indexes uri[0])",
@@ -41,6 +41,7 @@ ASSUMPTIONS = [
 ]
 MIN_NONTRIVIAL = 1000
 REQUIRED_COUNTERS = ["direct_lookups", "absolute_outside_path_uris", "returned_inside", "rejected", "tag_renders", "audit_events_seen", "module_files_written"]
+REQUIRED_COUNTERS += ["foreign_module_loads"]
 SHARDED_GEN = True
 
 SEGS = ["file.html", "sub", "..", ".", "", "..file.html", "file.html..", "..\\x", "rootx", "other"]
@@ -325,7 +326,53 @@ def configs():
     return out
 
 
+def run_foreign_modules(res):
+    """other TemplateLookups in the same process, rooted OUTSIDE our directories, load templates of the same URIs
+    (with a module directory of their own, and with ours); whatever they have loaded and in whichever order, a lookup
+    over our root only ever hands out templates compiled from files inside our root"""
+    L = _st["TemplateLookup"]
+    base = _st["base"]
+    ours = {"directories": [base + "/root"], "module_directory": base + "/mods"}
+    kept = []
+    for foreign_mods in (base + "/mods/foreign", base + "/mods/foreign2"):  # (never OUR module directory: sharing one between roots is C14's finding)
+        for uri in ("/file.html", "/sub/file.html"):
+            for order in ("ours-first", "foreign-first"):
+                steps = [("ours", 0), ("foreign", 0), ("ours", 1)] if order == "ours-first" else [("foreign", 0), ("ours", 0), ("foreign", 1), ("ours", 1)]
+                for who, _n in steps:
+                    what = "lookups sharing a process (%s, foreign module directory %s), %s loads %s" % (order, foreign_mods[len(base):], who, uri)
+                    res.evaluations += 1
+                    res.count("foreign_module_loads")
+                    _audit["on"] = True
+                    try:
+                        if who == "foreign":
+                            fl = L(directories=[base + "/rootx"], module_directory=foreign_mods)
+                            kept.append((fl, fl.get_template(uri)))  # stays alive
+                            continue
+                        lk = L(**ours)
+                        outs = []
+                        t = lk.get_template(uri)
+                        outs.append(t.render_unicode())
+                        lk.put_string("/inc_.html", '<%%include file="%s"/>' % uri)
+                        lk.put_string("/ns_.html", '<%%namespace name="n" file="%s"/>${n.body()}' % uri)
+                        outs.append(lk.get_template("/inc_.html").render_unicode())
+                        outs.append(lk.get_template("/ns_.html").render_unicode())
+                        fname = getattr(t.module, "_template_filename", None)
+                    except Exception as e:
+                        res.violate("non-lookup-exception", "%s raised %s: %s" % (what, type(e).__name__, e))
+                        continue
+                    finally:
+                        _audit["on"] = False
+                        _audit["events"] = []
+                    if any(CANARY in o for o in outs) or not all("IN:" in o for o in outs):
+                        res.violate("canary-in-output", "%s rendered %r" % (what, outs), witness=what)
+                    if fname and not inside(fname):
+                        res.violate("returned-outside", "%s: the template's module was compiled from %r" % (what, fname), witness=what)
+    res.nontrivial("foreign-modules")
+
+
 def gen_cases(tier, seed, shard, nshards):
+    if shard == 0:
+        yield {"kind": "foreign-modules"}
     cfgs = configs()
     ncfg = 2 if tier == "quick" else 5
     for what in ("direct", "tag"):
@@ -353,6 +400,9 @@ _seen_first_cfg = set()
 
 def run_case(case):
     res = common.CaseResult()
+    if case["kind"] == "foreign-modules":
+        run_foreign_modules(res)
+        return res
     cfg = case["cfg"]
     cfgname = "root=%s two=%s moddir=%s" % (cfg["root"], cfg["two"], cfg["moddir"])
     look = get_lookup(cfg)
